@@ -5,7 +5,9 @@ from engine.facts import Site, Slicer, norm, operand_local, control_deps, last_f
 from rules.c01 import scheduler_impls, impl_method, WRAPPERS
 
 CRATES = {"shuttle_engine", "shuttle_schedulers"}
-CONFIGS_THOROUGH = ["vc", "annotation"]
+# the `annotation` feature does not type-check at the pinned commit (E0308 in shuttle-engine/src/annotations/mod.rs, untouched by any fix), so that
+# configuration cannot be extracted; `plain` (no vector clocks) is the second configuration instead
+CONFIGS_THOROUGH = ["vc", "plain"]
 EXPLANATION = (
     "Static decision of structural clauses of C08. (R1) outside forwarding `impl Scheduler` bodies, Scheduler::next_task is "
     "consulted at exactly one site of the engine and Scheduler::new_execution only in Runner::run. (R2) at that site: argument 1 "
